@@ -120,6 +120,19 @@ fn single_v(ctx: &mut Ctx, mask: Vec<i32>, sigpipe_mode: u64, tag: &str, from_th
         if vr.chance(300) {
             config.env = Some(vec![("A".into(), "b".into())]);
         }
+        if vr.chance(300) {
+            // an identity is asked for - the caller's own, which needs no privilege: the child takes another route to
+            // the program and arrives with the same clean signal state
+            let which = vr.below(3);
+            if which != 1 {
+                config.setuid = Some(unsafe { libc::geteuid() });
+            }
+            if which != 0 {
+                config.setgid = Some(unsafe { libc::getegid() });
+            }
+            what.push_str(" own-identity-requested");
+            ctx.count("launches_that_ask_for_the_callers_own_identity", 1);
+        }
         if vr.chance(400) {
             // the parent has closed its descriptor s; the file it opens next gets that number and is handed over for stream s
             let s = vr.below(3) as i32;
@@ -330,6 +343,29 @@ fn concurrent(ctx: &mut Ctx, rng: &mut Rng, i: u64) {
         let oldp = set_sigpipe(sigpipe_mode);
         oldp
     };
+    // in every other storm yet another thread of the caller keeps changing what the process does with SIGPIPE (ignore /
+    // default / ignore ...): whatever the action is at any moment around a fork, the program starts with the default
+    let flipping = (i / 3) % 2 == 1;
+    let stop = std::sync::Arc::new(std::sync::atomic::AtomicBool::new(false));
+    let flipper = if flipping {
+        ctx.count("storms_while_another_thread_changes_the_SIGPIPE_action", 1);
+        // (widens the distance between a look at the action in the parent, if there is one, and the fork)
+        crate::plan::seed(rng.next());
+        crate::plan::add(crate::plan::Rule { kind: crate::ilog::k::SIGACTION, scope: crate::plan::SCOPE_PARENT, nth: 0, fd: -1, act: crate::plan::ACT_DELAY_AFTER, val: -300, prob: 700 });
+        crate::plan::add(crate::plan::Rule { kind: crate::ilog::k::SIGNAL, scope: crate::plan::SCOPE_PARENT, nth: 0, fd: -1, act: crate::plan::ACT_DELAY_AFTER, val: -300, prob: 700 });
+        let stop2 = stop.clone();
+        Some(std::thread::spawn(move || {
+            let mut n = 0u64;
+            while !stop2.load(std::sync::atomic::Ordering::SeqCst) {
+                unsafe { libc::signal(libc::SIGPIPE, if n % 2 == 0 { libc::SIG_DFL } else { libc::SIG_IGN }) };
+                n += 1;
+                std::thread::sleep(std::time::Duration::from_micros(150));
+            }
+            n
+        }))
+    } else {
+        None
+    };
     let m = run::monitored(move || {
         let hs: Vec<_> = (0..nthreads)
             .map(|t| {
@@ -357,11 +393,15 @@ fn concurrent(ctx: &mut Ctx, rng: &mut Rng, i: u64) {
             .collect();
         hs.into_iter().map(|h| h.join().unwrap_or(false)).collect::<Vec<bool>>()
     });
+    stop.store(true, std::sync::atomic::Ordering::SeqCst);
+    if let Some(f) = flipper {
+        let _ = f.join();
+    }
     // the process-wide disposition must be what the test set, not what a spawn left behind
     let now = unsafe { libc::signal(libc::SIGPIPE, before) };
     let want = match sigpipe_mode { 0 => libc::SIG_IGN, 1 => libc::SIG_DFL, _ => noop_handler as usize };
     ctx.count("concurrent_spawn_storms", 1);
-    if now != want {
+    if now != want && !flipping {
         ctx.violation("C18/parent-sigpipe-changed", "after concurrent spawns the parent's own SIGPIPE disposition is not what it was", J::obj().set("mode", J::i(sigpipe_mode as i64)));
     }
     if let Some(kept) = &m.result {
